@@ -1,0 +1,25 @@
+//go:build verif
+
+package swap
+
+// Verification hook (build tag verif), add-only: run the real CheckPremiumAmount
+// wrapper on given swap data and report whether the wrapped action was reached.
+
+type verifMarkAction struct{ ran *bool }
+
+func (m *verifMarkAction) Execute(services *SwapServices, swap *SwapData) EventType {
+	*m.ran = true
+	return Event_ActionSucceeded
+}
+
+// VerifCheckPremium: passed = the wrapped action ran; panicked = the check dereferenced nil.
+func VerifCheckPremium(d *SwapData) (passed bool, panicked bool) {
+	defer func() {
+		if recover() != nil {
+			panicked = true
+		}
+	}()
+	ran := false
+	(&CheckPremiumAmount{next: &verifMarkAction{&ran}}).Execute(nil, d)
+	return ran, false
+}
